@@ -199,7 +199,11 @@ func (c *Ctx) rulesC02(a *coreAnchors) {
 	if pr != nil {
 		gm := c.fn(pm + ":DefaultRelationsResolver.getMissingRequires")
 		nr := 0
-		for _, clo := range pr.AnonFuncs {
+		var clos []*ssa.Function
+		for _, hf := range c.hostedFns(pr) {
+			clos = append(clos, hf.AnonFuncs...)
+		}
+		for _, clo := range clos {
 			for i, r := range returnsOf(clo) {
 				for _, v := range retVals(r) {
 					if bt, ok := v.Type().Underlying().(*types.Basic); !ok || bt.Kind() != types.Bool {
@@ -273,7 +277,7 @@ func (c *Ctx) rulesC02(a *coreAnchors) {
 						}
 						why = "the candidate list variable is never assigned the filter's result"
 					}
-				} else if f == pr {
+				} else if f.Parent() == nil {
 					// not captured: the loop-carried SSA value
 					if flowsFrom(cand, func(x ssa.Value) bool {
 						call, ok := x.(*ssa.Call)
@@ -286,7 +290,9 @@ func (c *Ctx) rulesC02(a *coreAnchors) {
 					why+": every pass of the fixed point compares against the original candidates, so a state whose requirement was dropped in an earlier pass is kept (Require chains deeper than the number of parseRequire calls stay half-active)")
 			}
 		}
-		visit(pr)
+		for _, hf := range c.hostedFns(pr) {
+			visit(hf)
+		}
 		if ng < 1 {
 			c.undecided("C02.last: no getMissingRequires call found in parseRequire")
 		}
